@@ -286,7 +286,7 @@ def tasks_for(pid, tier):
         return ds("cancel", 2, [v for v in allv if v not in small], jobs=8) + ds("cancel", 3, small, jobs=8)
     if pid == "C17":
         tiny = [0, 4, 6, 7, 9, 10, 11]
-        rest = [1, 2, 3, 5, 8]
+        rest = [1, 2, 3, 5, 8, 12]
         return ds("life", 3 if q else 4, tiny, jobs=4) + ds("life", 2 if q else 3, rest, jobs=8)
     if pid == "C19":
         small = [0, 1, 4, 5, 7, 8, 10, 11, 12, 14, 18, 20, 21, 22, 23, 24]
